@@ -417,7 +417,8 @@ def apply_template(rng, prop, world, mask, ops):
             b["dir"] = {"dtlocal": True}
         return name, [a, b]
     if name == "crash-redo":
-        a = fresh_op(0, "solve")
+        a = fresh_op(0, rng.choice(["solve", "restart"]))
+        a["f"] = rng.choice([{"init": fA}, a["f"]])
         b = dict(a)
         b["f"] = dict(a["f"])
         a["s"] = b["s"] = s0
